@@ -16,4 +16,17 @@ var specs = map[string]*propSpec{
 			{Name: "stream", Flavour: "plain", Quick: 160000, Thorough: 6000000, PerProc: 10000},
 		},
 	},
+	"C16": {
+		ID:   "C16",
+		Rule: "one run = one generated document, one way of obtaining a concurrently-readable node (Searcher{ConcurrentRead} at root or sub-path, NewRawConcurrentRead, NewRaw+Load/LoadAll, child of one of these), 2-5 reader clients x 1-8 documented read operations biased towards one shared still-raw path, executed under the seeded scheduler (statement-level yields in ast/*.go, shim RWMutex); non-trivial = more context switches than clients (readers really overlapped); distinct = distinct trace hash (every scheduling decision + yield site + draw)",
+		Assume: []string{
+			"code between two yield points is atomic for the scheduler; torn intra-statement accesses are left to the race detector (race flavour), which sees no happens-before edge from the scheduler's futex hand-off",
+			"reference = the same reads executed sequentially on a private clone built the same way",
+			"only operations documented as concurrently safe are issued",
+		},
+		Batches: []batch{
+			{Name: "norace", Flavour: "plain", Quick: 24000, Thorough: 600000, PerProc: 600, Progress: true, TimeoutS: 300},
+			{Name: "race", Flavour: "race", Env: []string{"GORACE=halt_on_error=1"}, Quick: 6000, Thorough: 150000, PerProc: 250, Progress: true, TimeoutS: 600},
+		},
+	},
 }
